@@ -225,6 +225,12 @@ class Recorder:
         elif len(self.samples) < 3:
             self.samples.append(shorten(shown))
 
+    def bulk(self, n: int, lab: str | None = None) -> None:
+        """Count ``n`` cases of a bulk enumeration that passed (no hashing)."""
+        self.evaluations += n
+        if lab is not None:
+            self.labels[lab] = self.labels.get(lab, 0) + n
+
     def label(self, lab: str, n: int = 1) -> None:
         self.labels[lab] = self.labels.get(lab, 0) + n
 
